@@ -74,6 +74,26 @@ def oracle(case):
         v.append({"what": f"computing the obstruction factors fails: {f['failed'][:160]}", "key": {"class": "fshobst-crash"}})
         return v
     more = case["impl"]["fshobst_with_extra_obstacle"]
+    # what can hide a window, by the statement: exterior or adiabatic walls and shades (those with a geometric position and an
+    # outline), plus each window's own reveals (checked below) — nothing else, in particular no ground-contact or interior wall
+    ids = case.get("occluder_ids")
+    mdl = case.get("model")
+    if isinstance(ids, list) and isinstance(mdl, dict):
+        def placed(e):
+            g = e.get("geometry") or {}
+            return g.get("position") is not None and len(g.get("polygon") or []) > 0
+        want = sorted([e["id"] for e in mdl.get("walls", []) if e.get("bounds") in ("EXTERIOR", "ADIABATIC") and placed(e)]
+                      + [e["id"] for e in mdl.get("shades", []) if placed(e)])
+        _stats["occluder_sets_checked"] += 1
+        got = sorted(ids)
+        if got != want:
+            by_id = {e["id"]: e for e in mdl.get("walls", [])}
+            extra = [i for i in got if i not in want]
+            missing = [i for i in want if i not in got]
+            kinds = sorted({by_id[i].get("bounds", "?") if i in by_id else "shade" for i in extra})
+            v.append({"what": f"the obstacles considered are not the exterior/adiabatic walls and shades with a position: "
+                              f"{len(extra)} unexpected ({', '.join(kinds) or '-'}), {len(missing)} missing",
+                      "key": {"class": "occluder-set", "unexpected": kinds, "missing": len(missing) > 0}})
     for w in case["windows"]:
         fs = f.get(w["window"])
         if fs is None and w["window"] in f:
